@@ -980,8 +980,9 @@ def result_form(ctx):
                    'error_model': em, 'gyro_model': gm, 'accel_model': am}
         ctx.need(all(p_ in by_name for p_ in f.params),
                  '%s: parameters %s not recognised' % (f.name, f.params))
+        returned = None
         try:
-            ev.call_function(f, [by_name[p_] for p_ in f.params])
+            returned = ev.call_function(f, [by_name[p_] for p_ in f.params])
         except RuntimeFailure as e:
             ctx.ob('RESULT-FORM', False, None, '%s evaluates' % f.name, f=f,
                    node=getattr(ev, 'last_stmt', (None, None))[1], key='raises-' + f.name,
@@ -1043,6 +1044,25 @@ def result_form(ctx):
             ctx.ob('RESULT-FORM', hit is not None, None, '%s: %s' % (f.name, desc[key]), f=f,
                    node=hit or f.node, key='%s-%s' % (f.name, key),
                    why='%s: %s does not hold for the reported table: %s' % (f.name, desc[key], why))
+        # role of every position of the returned tuple (used by RES-COLLECT): decided by VALUE
+        pos_roles = []
+        api = {'traj_sd': 'trajectory_sd', 'gyro_sd': 'gyro_sd', 'accel_sd': 'accel_sd',
+               'gyro': 'gyro', 'accel': 'accel'}
+        for el in (returned if isinstance(returned, tuple) else ()):
+            r_ = None
+            if isinstance(el, Rec) and list(el.cols) == traj_cols:
+                r_ = 'trajectory'
+            elif isinstance(el, Rec):
+                for key, (cols, vals, is_sd) in want.items():
+                    if key in api and list(el.cols) == cols and len(vals) == len(cols):
+                        d_ = [el.cols[c] for c in cols]
+                        if all(isinstance(v_, Rat) for v_ in d_) and (
+                                all(A.eq(A.mul(v_, v_), w_) and not A.eq(v_, w_)
+                                    for v_, w_ in zip(d_, vals)) if is_sd else
+                                all(A.eq(v_, w_) for v_, w_ in zip(d_, vals))):
+                            r_ = api[key]
+            pos_roles.append(r_)
+        ctx.cache.setdefault('result-roles', {})[f.name] = pos_roles
     ctx.floor('RESULT-FORM', n_ob, 9, 'reported tables')
 
 
@@ -1236,11 +1256,11 @@ def res_collect(ctx, which=None):
                    f=f, node=bound[p_], key='%s-arg-%s' % (M.kind, p_),
                    why='%s filter: parameter `%s` of %s receives %s' % (M.kind, p_, hname, got))
         # ---- names returned by the helper -> keys of the Bunch
-        hret = [s for s in ast.walk(h.node) if isinstance(s, ast.Return)]
-        ctx.need(len(hret) == 1 and isinstance(hret[0].value, ast.Tuple) and
-                 all(isinstance(e, ast.Name) for e in hret[0].value.elts),
-                 '%s: return of %s is not a tuple of names' % (f.name, hname))
-        rnames = [e.id for e in hret[0].value.elts]
+        if 'result-roles' not in ctx.cache or hname not in ctx.cache['result-roles']:
+            result_form(ctx)
+        rnames = ctx.cache.get('result-roles', {}).get(hname)
+        ctx.need(rnames, '%s: roles of the values returned by %s not established (RESULT-FORM)'
+                 % (f.name, hname))
         ctx.need(isinstance(cst, ast.Assign) and isinstance(cst.targets[0], ast.Tuple) and
                  len(cst.targets[0].elts) == len(rnames) and
                  all(isinstance(e, ast.Name) for e in cst.targets[0].elts),
@@ -1251,7 +1271,8 @@ def res_collect(ctx, which=None):
                  (res(rets[0].value.func) or '').endswith('Bunch'),
                  '%s: result is not a util.Bunch(...)' % f.name)
         for kw in rets[0].value.keywords:
-            if kw.arg in rnames:
+            if kw.arg in ('trajectory_sd', 'gyro_sd', 'accel_sd') or \
+                    (not fb and kw.arg in ('trajectory', 'gyro', 'accel')):
                 v = kw.value
                 got = local_of.get(v.id) if isinstance(v, ast.Name) else None
                 n_ob += 1
@@ -1262,7 +1283,7 @@ def res_collect(ctx, which=None):
                        why="%s filter: result key '%s' is bound to `%s`, i.e. to %s"
                            % (M.kind, kw.arg, norm_text(v)[:50],
                               ("what %s returns as '%s'" % (hname, got)) if got else
-                              'something the helper does not return under that name'))
+                              'something the helper does not return in that role'))
             elif fb and kw.arg in ('gyro', 'accel'):
                 v = kw.value
                 ok, got = False, norm_text(v)[:60]
@@ -1279,7 +1300,9 @@ def res_collect(ctx, which=None):
                        why="feedback filter: result key '%s' is %s" % (kw.arg, got))
             elif fb and kw.arg == 'trajectory':
                 n_ob += 1
-                ctx.ob('RES-COLLECT', norm_text(kw.value) == 'integrator.trajectory', None,
+                kv = kw.value
+                ctx.ob('RES-COLLECT', isinstance(kv, ast.Attribute) and kv.attr == 'trajectory' and
+                       isinstance(kv.value, ast.Name) and kv.value.id in integrators, None,
                        "feedback: result key 'trajectory' is the integrator's trajectory", f=f,
                        node=kw.value, key='feedback-key-trajectory',
                        why="feedback filter: result key 'trajectory' is `%s`"
